@@ -59,7 +59,7 @@ func c16Plan(seed int64, tier string) []core.Case {
 	} else {
 		cs = append(cs, core.Case{Kind: "csi-pairs", P: map[string]int64{"m": 1, "d": 1}})
 	}
-	big := [][2]int64{{14, 5}, {14, 6}, {12, 4}, {10, 3}, {6, 2}, {4, 2}, {14, 7}, {12, 8}, {16, 6}, {10, 9}, {20, 7}}
+	big := [][2]int64{{14, 5}, {14, 6}, {12, 4}, {10, 3}, {6, 2}, {4, 2}, {14, 7}, {12, 8}, {16, 6}, {10, 9}, {20, 7}, {11, 6}, {17, 4}, {23, 2}, {26, 1}, {8, 7}, {2, 9}, {5, 8}, {20, 3}, {14, 10}, {1, 10}}
 	for _, g := range big {
 		for i := 0; i < nrand/8+1; i++ {
 			cs = append(cs, core.Case{Kind: "csi-random", Seed: core.SubSeed(seed, "csir", g, i), P: map[string]int64{"m": g[0], "d": g[1], "n": 40000}})
